@@ -4,6 +4,8 @@
      enci <cfg> <scalars>   -> <encode_internal>
      dec  <cfg> <bytes>     -> <decode> <decode_to_string>
      deci <cfg> <inst> <units> -> <decode_with inst>      inst = u8i | chi | u8e
+     known <scalars>        -> 1 | 0   (class of F-C13-1, Spec/Rfc3492.known_c13)
+     spec enc <scalars> / spec dec <bytes> -> the unbounded RFC 3492 transcription
      tab                    -> digit_u8 on 0..255, digit_char on 0..255, value_to_digit on 0..39, constants
    results: ok:<list> | err | PANIC *)
 let show_res = function Ok l -> "ok:" ^ show_list l | Err -> "err" | Panic _ -> "PANIC"
@@ -15,6 +17,9 @@ let handle = function
   | ["enci"; c; s] -> show_res (encode_internal (cfg_of c) (parse_list s))
   | ["dec"; c; b] -> let b = parse_list b in show_res (decode (cfg_of c) b) ^ " " ^ show_res (decode_to_string (cfg_of c) b)
   | ["deci"; c; i; b] -> show_res (decode_with (cfg_of c) (inst_of i) (parse_list b))
+  | ["known"; s] -> show_bool (known_c13 (parse_list s))
+  | ["spec"; "enc"; s] -> "ok:" ^ show_list (s_encode (parse_list s))
+  | ["spec"; "dec"; b] -> (match s_decode (parse_list b) with Some l -> "ok:" ^ show_list l | None -> "err")
   | ["tab"] ->
     let so = function Some v -> show_n v | None -> "~" in
     let sr = function Ok v -> show_n v | _ -> "P" in
